@@ -575,6 +575,9 @@ func capped(w *wspec, maxw, maxh int, limit int) bool {
 	if maxw == 65535 || maxh == 65535 {
 		return true // documented panic before allocating
 	}
+	if w.hasCursorList() && maxh > 300 {
+		return false // the gutter loop writes 2*Max.Height cells: quadratic in the list-based model
+	}
 	return maxw*maxh <= limit
 }
 
@@ -646,6 +649,13 @@ func drawStream() *hx.Stream {
 		drawCase(s, w, mw, mh, weird, tag)
 	}
 	return s
+}
+
+func (w *wspec) hasCursorList() bool {
+	if w.Kind == "list" && w.Cursor {
+		return true
+	}
+	return w.Child != nil && w.Child.hasCursorList()
 }
 
 func deepCopy(w *wspec) *wspec {
